@@ -1156,6 +1156,12 @@ def _gen_plan(family: str, i: int, rng: random.Random, tier: str, targets=None) 
 
         warm = {"kind": "procs", "procs": [{"flavour": "normal", "workload": [["cfg", rng.randrange(6)]] + tkeys + [["cfg", rng.randrange(6)]]}], "sched": [], "sched_seed": 0}
         phases = [warm, {"kind": "stale", "target": target, "variant": rng.randrange(6)}]
+        if rng.random() < 0.35:
+            # two things at once: the config cache is outdated *and* the quick-info cache is unusable (a writer was killed,
+            # or it was never written), so the next start rebuilds the quick-info database by loading everything
+            dmg = _damage_phase(rng)
+            dmg["file"] = "quick"
+            phases.append(dmg)
         n = rng.choice([1, 2, 2, 3])
         procs = [{"flavour": "normal", "workload": aimed(rng.randint(1, 3))} for _ in range(n)]
         if rng.random() < 0.45:
